@@ -61,11 +61,39 @@ var opNames = map[expr.Operator]string{
 	expr.In: "IN", expr.List: "LIST",
 }
 
-func unexportedInt(e *expr.Expression, name string) int64 {
-	return reflect.ValueOf(e).Elem().FieldByName(name).Int()
+// suffixArgs reads the distance of a fuzzy node / the power of a boost node.  The fields are unexported: they are read by name
+// when they still have the names known here, otherwise through the public JSON encoding of a shallow copy of the node (the
+// members "distance" and "power", omitted when 1), so that renaming an internal field does not break the recorder.
+func suffixArgs(e *expr.Expression) (dist int64, pow float64) {
+	v := reflect.ValueOf(e).Elem()
+	fd, bp := v.FieldByName("fuzzyDistance"), v.FieldByName("boostPower")
+	if fd.IsValid() && bp.IsValid() && fd.CanInt() && bp.CanFloat() {
+		return fd.Int(), bp.Float()
+	}
+	return suffixArgsJSON(e)
 }
-func unexportedFloat(e *expr.Expression, name string) float64 {
-	return reflect.ValueOf(e).Elem().FieldByName(name).Float()
+
+func suffixArgsJSON(e *expr.Expression) (dist int64, pow float64) {
+	dist, pow = 1, 1
+	tmp := *e
+	tmp.Left, tmp.Right = "x", nil
+	b, err := json.Marshal(tmp)
+	if err != nil {
+		return
+	}
+	var m struct {
+		D *int64   `json:"distance"`
+		P *float64 `json:"power"`
+	}
+	if json.Unmarshal(b, &m) == nil {
+		if m.D != nil {
+			dist = *m.D
+		}
+		if m.P != nil {
+			pow = *m.P
+		}
+	}
+	return
 }
 
 // dumpTree projects an expression into the uniform record; any shape outside the documented
@@ -99,12 +127,12 @@ func dumpTree(in any) Tree {
 		if e.Right != nil {
 			return bad("unary with right side")
 		}
-		return Tree{"op": name, "l": dumpTree(e.Left), "p": strconv.FormatInt(unexportedInt(e, "fuzzyDistance"), 10)}
+		return Tree{"op": name, "l": dumpTree(e.Left), "p": strconv.FormatInt(func() int64 { d, _ := suffixArgs(e); return d }(), 10)}
 	case expr.Boost:
 		if e.Right != nil {
 			return bad("unary with right side")
 		}
-		return Tree{"op": name, "l": dumpTree(e.Left), "p": fmtFloat(unexportedFloat(e, "boostPower"))}
+		return Tree{"op": name, "l": dumpTree(e.Left), "p": fmtFloat(func() float64 { _, p := suffixArgs(e); return p }())}
 	case expr.Range:
 		b, ok := e.Right.(*expr.RangeBoundary)
 		if !ok || b == nil {
